@@ -1290,3 +1290,8 @@ mod tests {
         assert_eq!(second_layer_count, 0);
     }
 }
+
+// verification hook (guard: cfg(kani), set only by `cargo kani`): harness module supplied by /verif
+#[cfg(kani)]
+#[path = "verif_kani_serializer.rs"]
+mod verif_kani;
